@@ -300,6 +300,29 @@ def load_one(lit: LineIterator) -> dict:
     if atcharges:
         result["atcharges"] = atcharges
 
+    # F) Check the sizes of arrays that are not validated elsewhere (damaged files)
+    natom = len(result["atnums"])
+    for key, charges in atcharges.items():
+        if charges.shape != (natom,):
+            raise LoadError(
+                f"The number of {key} charges ({len(charges)}) "
+                f"is inconsistent with the number of atoms ({natom}).",
+                lit,
+            )
+    for key, dm in one_rdms.items():
+        if dm.shape != (nbasis, nbasis):
+            raise LoadError(
+                f"The shape of density matrix {key} {dm.shape} "
+                f"is inconsistent with 'Number of basis functions' ({nbasis}).",
+                lit,
+            )
+    if "athessian" in result and result["athessian"].shape != (3 * natom, 3 * natom):
+        raise LoadError(
+            f"The shape of the force constants {result['athessian'].shape} "
+            f"is inconsistent with the number of atoms ({natom}).",
+            lit,
+        )
+
     return result
 
 
